@@ -122,9 +122,14 @@ pub fn l3_case(delta: u64, seed: u64, l: &mut Local) {
         IpAddr::V4(a) => wire::a(&owner, 120, a.octets()),
         IpAddr::V6(a) => wire::aaaa(&owner, 120, a.octets()),
     };
+    // sometimes the first record is short-lived and the flushing record arrives in its last second: it still
+    // ends when its own TTL says, not later
+    let ttl1: u32 = if rng.chance(1, 4) { 3 } else { 120 };
+    let delta = if ttl1 == 3 { 2050 + rng.below(900) } else { delta };
     let t1 = w.now();
     let mut m1 = Message::response();
     m1.answers.push(rec(0x61));
+    m1.answers[0].ttl = ttl1;
     // the host's address of the other family, learned at the same time on the same interface: records of
     // another type are none of a cache-flush record's business
     let other_family = rng.chance(1, 2);
@@ -154,9 +159,23 @@ pub fn l3_case(delta: u64, seed: u64, l: &mut Local) {
         w.inject_msg(h, 2, scen::peer4(61), &m2);
     }
     let t2 = w.now();
+    // sometimes one more cache-flush record of the name follows within the second: what the first flush
+    // condemned still ends one second after the first flush
+    let third = if rng.chance(1, 2) { Some(*rng.pick(&[200u64, 500, 900])) } else { None };
+    if let Some(d3) = third {
+        w.run_until(t2 + d3);
+        let mut m3 = Message::response();
+        m3.answers.push(rec(0x64));
+        m3.answers[0].class |= wire::FLUSH;
+        if other_if {
+            w.inject_msg(h, 3, sock4([192, 168, 1, 62], 5353), &m3);
+        } else {
+            w.inject_msg(h, 2, scen::peer4(61), &m3);
+        }
+    }
     w.run_until(t2 + 5000);
     l.evaluations += 1;
-    l.distinct.insert(util::fnv_str(&format!("L3|{delta}|{two_if}|{other_if}|{same_burst_extra}|{other_family}|{v6}")));
+    l.distinct.insert(util::fnv_str(&format!("L3|{delta}|{two_if}|{other_if}|{same_burst_extra}|{other_family}|{v6}|{ttl1}|{third:?}")));
     let Some(chan) = chan else { return };
     let removed: Vec<(u64, IpAddr)> = w
         .trace
@@ -169,22 +188,31 @@ pub fn l3_case(delta: u64, seed: u64, l: &mut Local) {
         .collect();
     let first: IpAddr = ip_of(0x61);
     let fam = if v6 { "aaaa" } else { "a" };
-    let wit = || json!({"delta_ms": delta, "records": fam, "two_interfaces": two_if, "flusher_on_other_interface": other_if, "other_family_record_cached_too": other_family, "trace": w.trace.render(0, 40)});
+    let wit = || json!({"delta_ms": delta, "records": fam, "ttl_of_first_record_s": ttl1, "third_flush_record_after_ms": third, "two_interfaces": two_if, "flusher_on_other_interface": other_if, "other_family_record_cached_too": other_family, "trace": w.trace.render(0, 40)});
     let first_removed = removed.iter().find(|(_, ip)| *ip == first).map(|(t, _)| *t);
     l.act("L3");
     // older than one second and on the same interface: ends one second after the flush
     let must_flush = delta > 1001 && !other_if;
     let must_keep = delta < 999 || other_if;
     if must_flush {
+        // one second after the flush, or when its own TTL ends if that comes first
+        let due = (t2 + 1000).min(t1 + 1000 * ttl1 as u64);
         match first_removed {
-            Some(t) if t >= t2 + 1000 && t <= t2 + 1001 => {}
+            Some(t) if t >= due && t <= due + 1 => {}
             other => l.violate(
-                Violation::new("L3", format!("L3/old-record-not-flushed-after-one-second/{fam}"), format!("a record {delta} ms old was not ended 1 s after a cache-flush record of the same name arrived (removed at {:?})", other.map(|t| t - t2)))
-                    .with(wit()),
+                Violation::new(
+                    "L3",
+                    format!("L3/old-record-not-flushed-after-one-second/{fam}{}{}", if ttl1 == 3 { "/in-its-last-second" } else { "" }, if third.is_some() { "/another-flush-within-the-second" } else { "" }),
+                    format!("a record {delta} ms old (TTL {ttl1} s) was not ended {} ms after a cache-flush record of the same name arrived (removed at {:?})", due - t2, other.map(|t| t - t2)),
+                )
+                .with(wit()),
             ),
         }
     }
-    if must_keep && first_removed.is_some() {
+    // (kept: not ended before its own TTL says; a third cache-flush record on the same interface meets the first
+    // one at a greater age and may condemn it in its own right)
+    let third_may_flush = third.is_some() && !other_if;
+    if must_keep && !third_may_flush && first_removed.is_some_and(|t| t < t1 + 1000 * ttl1 as u64) {
         l.violate(
             Violation::new(
                 "L3",
@@ -198,7 +226,7 @@ pub fn l3_case(delta: u64, seed: u64, l: &mut Local) {
         l.violate(Violation::new("L3", "L3/record-of-another-type-flushed", format!("a cache-flush {} record ended the record of the other address family of the same host ({delta} ms old)", fam.to_uppercase())).with(wit()));
     }
     // the flushing record itself and its burst companions stay
-    for last in [0x62u8, 0x63] {
+    for last in [0x62u8, 0x63, 0x64] {
         if removed.iter().any(|(_, r)| *r == ip_of(last)) {
             l.violate(Violation::new("L3", "L3/new-record-flushed", "the cache-flush record itself (or its burst companion) was ended").with(wit()));
         }
